@@ -24,8 +24,8 @@ var gammas = []uint32{g88, g32}
 func us(x uint32) string { return strconv.FormatUint(uint64(x), 10) }
 
 var need = map[string]int{"reduceOnce": 1, "add": 2, "sub": 2, "neg": 1, "mul": 2, "power2Round": 1, "scalePower2": 1,
-		"divBy2Gamma2": 2, "decompose": 2, "highBits": 2, "lowBits": 2, "makeHint": 3, "useHint": 3, "centeredAbs": 1,
-		"centeredMax": 2, "zeta": 1}
+	"divBy2Gamma2": 2, "decompose": 2, "highBits": 2, "lowBits": 2, "makeHint": 3, "useHint": 3, "centeredAbs": 1,
+	"centeredMax": 2, "zeta": 1}
 
 // scalarRes evaluates the Go original of a scalar function.
 func scalarRes(fn string, a []uint32) (string, bool) {
